@@ -113,6 +113,8 @@ class Rig:
         elif op == "run":
             vt.now = (self.mnow() + a) * self.unit
             core.run_once()
+        elif op == "tick":
+            vt.now = (self.mnow() + a) * self.unit       # the clock moves, the loop does not run
         else:
             raise ValueError(op)
 
@@ -154,8 +156,14 @@ def heap_ops(rng, c, n):
             ops.append(("at", rng.choice(c["K"]), now + rng.choice([1, 2, 3, 5, 8, 13, 21, 34, 60])))
         elif r < 0.55:
             ops.append(("after", rng.choice(c["K"]), rng.choice([1, 3, 30])))
-        elif r < 0.88:
+        elif r < 0.80:
             ops.append(("suspend", rng.choice(c["K"]), 0))
+        elif r < 0.84:
+            ops.append(("resume", rng.choice(c["K"]), 0))
+        elif r < 0.90:
+            d = rng.choice([1, 2, 3])
+            now += d
+            ops.append(("tick", 0, d))      # the clock moves while the loop is not running
         else:
             d = rng.choice([0, 1, 1, 2, 4])
             now += d
@@ -175,7 +183,7 @@ def tla_set(s):
 
 
 def cfg_for(c, mode, traises_sets="{{}}", fraises_sets="{{}}", times="{1, 2}", deltas="{0, 1}", steps="{0, 1, 2}",
-            maxlevel=6, drop=False, props=True):
+            maxlevel=6, drop=False, props=True, ticks="{}"):
     rec = c["rec"]
     n = max(c["K"])
     inter = "[k \\in %s |-> CASE %s]" % (tla_set(rec), " [] ".join("k = %d -> %d" % (k, c["interval"][k]) for k in rec)) if rec else "<<>>"
@@ -183,7 +191,7 @@ def cfg_for(c, mode, traises_sets="{{}}", fraises_sets="{{}}", times="{1, 2}", d
     defs = {"Interval": inter, "Offset": offs, "TaskDefers": tla_fn(c["task_defers"], range(1, n + 1)),
             "FnDefers": tla_fn(c["fn_defers"], range(1, max(c["F"]) + 1)),
             "TaskRaisesSets": traises_sets, "FnRaisesSets": fraises_sets}
-    consts = {"K": tla_set(c["K"]), "Rec": tla_set(rec), "F": tla_set(c["F"]), "Times": times, "Deltas": deltas, "Steps": steps, "MaxLevel": str(maxlevel),
+    consts = {"K": tla_set(c["K"]), "Rec": tla_set(rec), "F": tla_set(c["F"]), "Times": times, "Deltas": deltas, "Steps": steps, "TickSteps": ticks, "MaxLevel": str(maxlevel),
               "DropBatchOnRaise": "TRUE" if drop else "FALSE"}
     if mode == "mc":
         lines = ["SPECIFICATION Spec", "CONSTRAINT Bound", "CHECK_DEADLOCK FALSE"]
@@ -335,8 +343,12 @@ def random_ops(rng, c, n, times=(0, 1, 2, 3, 4, 5), deltas=(0, 1, 2), steps=(0, 
             ops.append(("suspend", rng.choice(c["K"]), 0))
         elif r < 0.66:
             ops.append(("resume", rng.choice(c["K"]), 0))
-        elif r < 0.78:
+        elif r < 0.76:
             ops.append(("defer", rng.choice(c["F"]), 0))
+        elif r < 0.81:
+            d = rng.choice((1, 1, 2))
+            now += d
+            ops.append(("tick", 0, d))
         else:
             d = rng.choice(steps)
             now += d
@@ -573,6 +585,9 @@ def main(tier, seed):
            maxlevel=7 if thorough else 5)
     run_mc(chk, "t", t, traises_sets="{{}}", fraises_sets="SUBSET {1, 2, 3, 4, 5, 6}", times="{1}", deltas="{0}",
            steps="{0, 1}", maxlevel=7 if thorough else 5)
+    # the clock also moves between passes (Tick): installations are relative to the clock as it is then
+    tk = dict(K=[1, 2], rec=[2], interval={2: 2}, offset={2: 1}, task_defers={}, F=[1], fn_defers={})
+    run_mc(chk, "tick", tk, traises_sets="{{}}", times="{1, 3}", deltas="{1}", steps="{0, 1}", ticks="{1}", maxlevel=7 if thorough else 6)
     # sanity / vacuity: the named deviation must be caught by the invariant
     run_mc(chk, "a_dev", a, expect_error=("DeferredExactlyOnceInOrder", "NothingDueLeftUnlessRaise"), fraises_sets="{{2}}", maxlevel=5, drop=True)
     # R: spec -> code
